@@ -11,7 +11,9 @@
    (it need not be: C10_probe_refuted). *)
 From CV Require Import Base.Tac Base.LinAlg Base.Cmp Model.C10_Conj Model.C10_ConjR
                        Proofs.C10_Kernel Proofs.C10_Exact Proofs.C10_Valid Proofs.C10_Carrier
-                       Proofs.C10_Approx Proofs.C10_Probe2 Proofs.C10_Vec Proofs.C10_Full Proofs.C10_Checks Proofs.C10_Life.
+                       Proofs.C10_Approx Proofs.C10_Probe2 Proofs.C10_Vec Proofs.C10_Full Proofs.C10_Checks Proofs.C10_Life
+                       Model.C10_Dep Model.C10_Direct Model.C10_Lmrf
+                       Proofs.C10_Probe3 Proofs.C10_MonoExact Proofs.C10_Reg Proofs.C10_DirectLife Proofs.C10_Lmrf Proofs.C10_Affine Proofs.C10_Integral Proofs.C10_RegCheck Proofs.C10_MonoIff.
 From Coq Require Import Reals QArith Qabs Qreals.
 
 (* ------------------------------------------------------------------------------------------------- *)
@@ -511,6 +513,393 @@ Theorem C10_retarget_restoring_holds_last_accepted :
     es_target (fst (assign_all false i smp ts)) = last_accepted i (es_target smp) ts.
 Proof. exact assign_all_restoring_holds_last_accepted. Qed.
 Print Assumptions C10_retarget_restoring_holds_last_accepted.
+
+(* ------------------------------------------------------------------------------------------------- *)
+(* 12. the probes characterised exactly (round 5)                                                      *)
+(* ------------------------------------------------------------------------------------------------- *)
+
+(* what a probe reads: the values of the callable at 1, 10, 100 and nothing else.  id_pass e / rec_pass e are the three
+   tolerance inequalities written out (numpy.allclose: |v - x| <= 1e-8 + 1e-5 x; math.isclose against r > 0:
+   r (1 - 1e-9) <= v and v (1 - 1e-9) <= r); two callables agreeing at the three points get the same verdicts *)
+Theorem C10_probe_reads_three_values :
+  (forall f, probe_identity f = true <-> Forall id_pass f)
+  /\ (forall f, probe_reciprocal f = PTypeError <-> length f <> 1%nat)
+  /\ (forall e, probe_reciprocal [e] = PTrue <-> rec_pass e)
+  /\ (forall f f', Forall2 same_at_probe_pts f f' -> probe_identity f = probe_identity f')
+  /\ (forall e e', same_at_probe_pts e e' -> probe_reciprocal [e] = probe_reciprocal [e']).
+Proof.
+  exact (conj probe_identity_spec (conj (fun f => proj1 (probe_reciprocal_spec f)) (conj rec_pass_single
+        (conj probe_identity_ext probe_reciprocal_ext)))).
+Qed.
+Print Assumptions C10_probe_reads_three_values.
+
+(* FINDING, as a universal statement (known_findings.tsv: exp.Conjugate|probe:three-point|non-identity-accepted): ANY multiple
+   h (s-1)(s-10)(s-100) -- h any expression -- can be added to ANY callable without changing either verdict ... *)
+Theorem C10_probe_blind_to_vanishing_multiples :
+  forall e h : dexp,
+    probe_identity [dperturb e h] = probe_identity [e] /\ probe_reciprocal [dperturb e h] = probe_reciprocal [e].
+Proof. exact probes_blind_to_vanishing_multiples. Qed.
+Print Assumptions C10_probe_blind_to_vanishing_multiples.
+
+(* ... so the accepted maps are not even bounded: s + h (s-1)(s-10)(s-100) passes for every h and is 784 h away from s at s = 2 *)
+Theorem C10_probe_cubic_family_refuted :
+  forall h : Q, probe_identity [dperturb DVar (DConst h)] = true /\ (deval (dperturb DVar (DConst h)) 2 - 2 == 784 * h)%Q.
+Proof. exact probe_identity_cubic_family. Qed.
+Print Assumptions C10_probe_cubic_family_refuted.
+
+(* on the class c * s^k, k ANY integer (positive, zero, negative), both probes are decision procedures *)
+Theorem C10_probe_identity_decides_monomials :
+  forall (c : Q) (k : Z),
+    probe_identity [dmono c k] = true <-> k = 1%Z /\ (Qabs (c - 1) <= 100001 # 10000000000)%Q.
+Proof. exact probe_identity_mono_iff. Qed.
+Print Assumptions C10_probe_identity_decides_monomials.
+
+Theorem C10_probe_reciprocal_decides_monomials :
+  forall (c : Q) (k : Z),
+    probe_reciprocal [dmono c k] = PTrue <-> k = (-1)%Z /\ (1 - py_reltol <= c)%Q /\ (c * (1 - py_reltol) <= 1)%Q.
+Proof. exact probe_reciprocal_mono_iff. Qed.
+Print Assumptions C10_probe_reciprocal_decides_monomials.
+
+(* polynomials of degree <= 2 (as many coefficients as probe points): acceptance confines every coefficient and the map stays
+   within an explicit distance of the identity for EVERY s >= 0; an explicit inner box is accepted.  Degree 3 is the first
+   degree where this fails (C10_probe_cubic_family_refuted) *)
+Theorem C10_probe_quadratic_sound :
+  (forall a0 a1 a2, probe_identity [dquad a0 a1 a2] = true ->
+      (Qabs a0 <= 25 # 1000000)%Q /\ (Qabs (a1 - 1) <= 15 # 1000000)%Q /\ (Qabs a2 <= 25 # 100000000)%Q)
+  /\ (forall a0 a1 a2 s, probe_identity [dquad a0 a1 a2] = true -> (0 <= s)%Q ->
+      (Qabs (deval (dquad a0 a1 a2) s - s) <= (25 # 1000000) + (15 # 1000000) * s + (25 # 100000000) * (s * s))%Q)
+  /\ (forall a0 a1 a2, (Qabs a0 <= 3 # 1000000)%Q -> (Qabs (a1 - 1) <= 3 # 1000000)%Q -> (Qabs a2 <= 3 # 100000000)%Q ->
+      probe_identity [dquad a0 a1 a2] = true).
+Proof. exact (conj probe_identity_quadratic (conj probe_identity_quadratic_uniform probe_identity_quadratic_inner)). Qed.
+Print Assumptions C10_probe_quadratic_sound.
+
+(* the mirror for the reciprocal probe: a0 + a1 / s + a2 / s^2 *)
+Theorem C10_probe_reciprocal_quadratic_sound :
+  forall a0 a1 a2, probe_reciprocal [drquad a0 a1 a2] = PTrue ->
+    (Qabs a0 <= 25 # 1000000000000)%Q /\ (Qabs (a1 - 1) <= 15 # 10000000000)%Q /\ (Qabs a2 <= 25 # 10000000000)%Q.
+Proof. exact probe_reciprocal_quadratic. Qed.
+Print Assumptions C10_probe_reciprocal_quadratic_sound.
+
+(* ------------------------------------------------------------------------------------------------- *)
+(* 13. on monomial dependences acceptance IMPLIES exactness                                            *)
+(* ------------------------------------------------------------------------------------------------- *)
+
+(* the samplers evaluate the likelihood's distribution at unit hyper-parameter, so a constant factor in the dependence is carried
+   by L: prec = c s, cov = c / s (Gaussian) and prec = c s (GMRF) are sampled exactly for EVERY c > 0 *)
+Theorem C10_scaled_dependence_exact :
+  forall (lnG : R -> R) (c : R), (0 < c)%R ->
+  (forall (prec_fun : R -> R) (Ax b : Rvec) (alpha beta : R),
+      (forall s, 0 < s -> prec_fun s = c * s)%R -> length Ax = length b ->
+      proportional_on_pos (post_logd lnG (lik_gauss_prec prec_fun Ax b) alpha beta)
+        (sampler_logpdf lnG (length b) (sqrtprec_of (from_prec_scalar (length b) (prec_fun 1%R))) Ax b alpha beta))
+  /\ (forall (cov_fun : R -> R) (Ax b : Rvec) (alpha beta : R),
+      (forall s, 0 < s -> cov_fun s = c / s)%R -> length Ax = length b ->
+      proportional_on_pos (post_logd lnG (lik_gauss_cov cov_fun Ax b) alpha beta)
+        (sampler_logpdf lnG (length b) (sqrtprec_of (from_cov_scalar (length b) (cov_fun 1%R))) Ax b alpha beta))
+  /\ (forall (prec_fun : R -> R) (rank : nat) (logdet : R) (cholT P : Rmat) (Ax b : Rvec) (alpha beta : R),
+      (forall s, 0 < s -> prec_fun s = c * s)%R -> chol_law (length b) cholT P -> length Ax = length b ->
+      proportional_on_pos (post_logd lnG (lik_gmrf prec_fun rank logdet P Ax b) alpha beta)
+        (sampler_logpdf lnG rank (gmrf_sqrtprec cholT (prec_fun 1%R)) Ax b alpha beta)).
+Proof.
+  exact (fun lnG c Hc => conj (fun pf Ax b al be Hf Hl => gauss_prec_scaled_exact lnG pf c Ax b al be Hc Hf Hl)
+         (conj (fun cf Ax b al be Hf Hl => gauss_cov_scaled_exact lnG cf c Ax b al be Hc Hf Hl)
+               (fun pf rk ld cT P Ax b al be Hf Hch Hl => gmrf_scaled_exact lnG pf c rk ld cT P Ax b al be Hc Hf Hch Hl))).
+Qed.
+Print Assumptions C10_scaled_dependence_exact.
+
+(* hence INSIDE the class s -> c s^k the probe is sound with no tolerance caveat: a monomial callable (the tree the harness turns
+   into the Python lambda, read over R by Rdeval) that is accepted is sampled from its exact conditional *)
+Theorem C10_probe_sound_on_monomials :
+  forall (lnG : R -> R) (c : Q) (k : Z) (Ax b : Rvec) (alpha beta : R), length Ax = length b ->
+  (probe_identity [dmono c k] = true ->
+     proportional_on_pos (post_logd lnG (lik_gauss_prec (Rdeval (dmono c k)) Ax b) alpha beta)
+       (sampler_logpdf lnG (length b) (sqrtprec_of (from_prec_scalar (length b) (Rdeval (dmono c k) 1%R))) Ax b alpha beta))
+  /\ (probe_identity [dmono c k] = true ->
+      forall (rank : nat) (logdet : R) (cholT P : Rmat), chol_law (length b) cholT P ->
+      proportional_on_pos (post_logd lnG (lik_gmrf (Rdeval (dmono c k)) rank logdet P Ax b) alpha beta)
+        (sampler_logpdf lnG rank (gmrf_sqrtprec cholT (Rdeval (dmono c k) 1%R)) Ax b alpha beta))
+  /\ (probe_reciprocal [dmono c k] = PTrue ->
+      proportional_on_pos (post_logd lnG (lik_gauss_cov (Rdeval (dmono c k)) Ax b) alpha beta)
+        (sampler_logpdf lnG (length b) (sqrtprec_of (from_cov_scalar (length b) (Rdeval (dmono c k) 1%R))) Ax b alpha beta)).
+Proof.
+  exact (fun lnG c k Ax b al be Hl =>
+           conj (fun H => probe_mono_gauss_prec_exact lnG c k Ax b al be H Hl)
+          (conj (fun H rk ld cT P Hch => probe_mono_gmrf_exact lnG c k rk ld cT P Ax b al be H Hch Hl)
+                (fun H => probe_mono_gauss_cov_exact lnG c k Ax b al be H Hl))).
+Qed.
+Print Assumptions C10_probe_sound_on_monomials.
+
+(* ... and the converse, for EVERY c > 0, integer k and data set with at least one datum: Gaussian(mean = Ax, prec = c s^k) is sampled from its
+   exact conditional IF AND ONLY IF k = 1.  So on monomials the experimental sampler never lets an inexact dependence through (what it
+   refuses with k = 1 would have been exact: a harmless refusal), and the legacy sampler -- which validates nothing (open finding
+   legacy.Conjugate|no-structural-validation) -- is exact on c s and on no other monomial *)
+Theorem C10_monomial_exact_iff :
+  forall (lnG : R -> R) (c : Q) (k : Z) (Ax b : Rvec) (alpha beta : R),
+    (0 < Q2R c)%R -> length Ax = length b -> (0 < length b)%nat ->
+    (proportional_on_pos (post_logd lnG (lik_gauss_prec (Rdeval (dmono c k)) Ax b) alpha beta)
+       (sampler_logpdf lnG (length b) (sqrtprec_of (from_prec_scalar (length b) (Rdeval (dmono c k) 1%R))) Ax b alpha beta)
+     <-> k = 1%Z).
+Proof. exact mono_exact_iff. Qed.
+Print Assumptions C10_monomial_exact_iff.
+
+(* the real-valued reading of a dependence tree is the image of the rational one the executable model evaluates *)
+Theorem C10_dependence_denotation :
+  forall (e : dexp) (s : Q), ddef e s -> Q2R (deval e s) = Rdeval e (Q2R s).
+Proof. exact Rdeval_deval. Qed.
+Print Assumptions C10_dependence_denotation.
+
+(* ------------------------------------------------------------------------------------------------- *)
+(* 14. the sqrt(eps) regularisation of periodic / neumann GMRFs, quantified for every x                 *)
+(* ------------------------------------------------------------------------------------------------- *)
+
+(* what the code draws from IS an exact conditional -- of the target density times exp(- s eps ||b - Ax||^2 / 2) *)
+Theorem C10_gmrf_regularised_exact_for_tilted :
+  forall (lnG : R -> R) (prec_fun : R -> R) (rank : nat) (logdet : R) (cholT P : Rmat) (eps : R) (Ax b : Rvec) (alpha beta : R),
+    (forall s, 0 < s -> prec_fun s = s)%R -> chol_law_reg (length b) cholT P eps -> length Ax = length b ->
+    proportional_on_pos (post_logd lnG (lik_gmrf_tilted prec_fun rank logdet P eps Ax b) alpha beta)
+       (sampler_logpdf lnG rank (gmrf_sqrtprec cholT (prec_fun 1%R)) Ax b alpha beta).
+Proof. exact gmrf_regularised_exact_for_tilted. Qed.
+Print Assumptions C10_gmrf_regularised_exact_for_tilted.
+
+(* the log-density ratio sampler / conditional as a function of s:  const - s eps ||b - Ax||^2 / 2, an identity for all s, s' *)
+Theorem C10_gmrf_regularised_logratio :
+  forall (lnG : R -> R) (prec_fun : R -> R) (rank : nat) (logdet : R) (cholT P : Rmat) (eps : R) (Ax b : Rvec) (alpha beta s s' : R),
+    (forall s, 0 < s -> prec_fun s = s)%R -> chol_law_reg (length b) cholT P eps -> length Ax = length b ->
+    (0 < s)%R -> (0 < s')%R ->
+    ((sampler_logpdf lnG rank (gmrf_sqrtprec cholT (prec_fun 1%R)) Ax b alpha beta s
+        - post_logd lnG (lik_gmrf prec_fun rank logdet P Ax b) alpha beta s)
+     - (sampler_logpdf lnG rank (gmrf_sqrtprec cholT (prec_fun 1%R)) Ax b alpha beta s'
+        - post_logd lnG (lik_gmrf prec_fun rank logdet P Ax b) alpha beta s')
+     = - (s - s') * (eps * Rnormsq (Rvsub b Ax) / 2))%R.
+Proof. exact gmrf_regularised_logratio. Qed.
+Print Assumptions C10_gmrf_regularised_logratio.
+
+(* the rate identity with the executable model's constant (gmrf_reg bc: 0 for zero, 2^-26 otherwise), every bc at once;
+   zero boundary conditions are exact *)
+Theorem C10_gmrf_model_rate_identity :
+  (forall (bc : bc_type) (n : nat) (cholT P : Rmat) (Ax b : Rvec) (beta : R),
+      chol_law_reg n cholT P (reg_R bc) -> length Ax = n -> length b = n ->
+      r_rate (gmrf_sqrtprec cholT 1%R) Ax b beta
+      = ((Rdot (Rvsub b Ax) (Rmatvec P (Rvsub b Ax)) / 2 + beta) + reg_R bc * Rnormsq (Rvsub b Ax) / 2)%R)
+  /\ reg_R BZero = 0%R /\ (forall bc, bc <> BZero -> reg_R bc = (/ 67108864)%R)
+  /\ (forall (lnG : R -> R) (prec_fun : R -> R) (rank : nat) (logdet : R) (cholT P : Rmat) (Ax b : Rvec) (alpha beta : R),
+      (forall s, 0 < s -> prec_fun s = s)%R -> chol_law_reg (length b) cholT P (reg_R BZero) -> length Ax = length b ->
+      proportional_on_pos (post_logd lnG (lik_gmrf prec_fun rank logdet P Ax b) alpha beta)
+         (sampler_logpdf lnG rank (gmrf_sqrtprec cholT (prec_fun 1%R)) Ax b alpha beta)).
+Proof.
+  exact (conj (gmrf_model_rate_identity (fun x => x)) (conj reg_R_zero (conj reg_R_nonzero gmrf_zero_bc_reg_exact))).
+Qed.
+Print Assumptions C10_gmrf_model_rate_identity.
+
+(* size: the sampler's rate is never below the conditional's; relative excess <= eps ||b - Ax||^2 / (2 beta) ... *)
+Theorem C10_gmrf_regularised_excess_bounds :
+  forall (n : nat) (cholT P : Rmat) (eps : R) (Ax b : Rvec) (beta : R),
+    chol_law_reg n cholT P eps -> length Ax = n -> length b = n -> (0 <= eps)%R -> (0 < beta)%R ->
+    (0 <= Rdot (Rvsub b Ax) (Rmatvec P (Rvsub b Ax)))%R ->
+    let r_cond := (Rdot (Rvsub b Ax) (Rmatvec P (Rvsub b Ax)) / 2 + beta)%R in
+    let r_smp := r_rate (gmrf_sqrtprec cholT 1%R) Ax b beta in
+    (r_cond <= r_smp)%R /\ ((r_smp - r_cond) / r_cond <= eps * Rnormsq (Rvsub b Ax) / (2 * beta))%R.
+Proof. exact (gmrf_regularised_excess_bounds (fun x => x)). Qed.
+Print Assumptions C10_gmrf_regularised_excess_bounds.
+
+(* ... and that bound is of the right order: in null-space directions of P (a constant shift of the field) the conditional's rate
+   stays beta while the sampler's grows like eps ||v||^2 / 2 -- for every K some data make the sampler's rate exceed K times the
+   conditional's (the finding is small for O(1) data, not uniformly small) *)
+Theorem C10_gmrf_regularised_relative_excess_unbounded :
+  forall eps beta K : R, (0 < eps)%R -> (0 < beta)%R -> (0 < K)%R ->
+  exists (Ax b : Rvec),
+    length Ax = 2%nat /\ length b = 2%nat
+    /\ chol_law_reg 2 (reg_wit_M eps) reg_wit_P eps
+    /\ (Rdot (Rvsub b Ax) (Rmatvec reg_wit_P (Rvsub b Ax)) / 2 + beta = beta)%R
+    /\ (K * beta < r_rate (gmrf_sqrtprec (reg_wit_M eps) 1%R) Ax b beta)%R.
+Proof.
+  exact (fun eps beta K He Hb HK =>
+    match gmrf_regularised_relative_excess_unbounded eps beta K He Hb HK with
+    | ex_intro _ Ax (ex_intro _ b (conj H1 (conj H2 (conj H3 H4)))) =>
+        ex_intro _ Ax (ex_intro _ b (conj H1 (conj H2 (conj (reg_wit_law eps (Rlt_le _ _ He)) (conj H3 H4)))))
+    end).
+Qed.
+Print Assumptions C10_gmrf_regularised_relative_excess_unbounded.
+
+(* ------------------------------------------------------------------------------------------------- *)
+(* 15. Direct over its whole life                                                                      *)
+(* ------------------------------------------------------------------------------------------------- *)
+
+(* draw k = what the k-th call of target.sample() returns (None: it raises).  Direct(target, initial).sample(ns).warmup(nw):
+   call 0 is made by the constructor's validation and thrown away; the chain is calls 1 .. ns+nw, in order; the initial point never
+   enters it; every acceptance entry is 1; exactly ns+nw+1 calls are made *)
+Theorem C10_direct_life :
+  forall (Pt : Type) (draw : nat -> option Pt) (initial : Pt) (ns nw : nat),
+    (forall k, (k <= ns + nw)%nat -> draw k <> None) ->
+    exists st, direct_life draw initial ns nw = DOk st
+      /\ map Some (dl_chain st) = map draw (seq 1 (ns + nw))
+      /\ dl_acc st = repeat 1%Q (S (ns + nw))
+      /\ dl_calls st = S (ns + nw)
+      /\ Some (dl_current st) = match (ns + nw)%nat with O => Some initial | S m => draw (S m) end.
+Proof. exact direct_life_chain. Qed.
+Print Assumptions C10_direct_life.
+
+(* the constructor refuses exactly the targets whose sample() raises; a later draw that raises -- inside sample() or inside
+   warmup() -- comes out with the chain built so far *)
+Theorem C10_direct_refusal_and_failure :
+  forall (Pt : Type) (draw : nat -> option Pt) (initial : Pt),
+    (direct_new draw initial = DRefused <-> draw 0%nat = None)
+    /\ (forall ns nw j, (j < ns + nw)%nat -> (forall k, (k <= j)%nat -> draw k <> None) -> draw (S j) = None ->
+          exists st, direct_life draw initial ns nw = DRaised st /\ map Some (dl_chain st) = map draw (seq 1 j)).
+Proof.
+  exact (fun Pt draw initial => conj (direct_refuses_iff Pt draw initial)
+                                      (fun ns nw j => direct_life_raises_anywhere Pt draw initial ns nw j)).
+Qed.
+Print Assumptions C10_direct_refusal_and_failure.
+
+(* a passing direct-life case: the model's life on the TABLE of the target's own consecutive draws ends normally and its chain is
+   the observed chain *)
+Theorem C10_direct_check_sound :
+  forall (table : list (option (list Q))) (initial : list Q) (ns nw : nat) (chain : list (list Q)) (cur acc : list Q),
+    check_direct_life table initial ns nw (ObsDone chain cur acc) = true ->
+    exists st, direct_life (table_draw table) initial ns nw = DOk st /\ qll_eqb (dl_chain st) chain = true.
+Proof. exact check_direct_life_sound. Qed.
+Print Assumptions C10_direct_check_sound.
+
+(* ------------------------------------------------------------------------------------------------- *)
+(* 16. ConjugateApprox on the operators LMRF builds for a 1-D field                                     *)
+(* ------------------------------------------------------------------------------------------------- *)
+
+(* lmrf_diff_op bc n is the modelled FirstOrderFiniteDifference matrix (compared entry by entry with the object's in every run).
+   The sampler's Gamma has the RATE of the exact conditional of the smoothed density with the LMRF's own number of factors len(Dx),
+   and its SHAPE is off by len(x) - len(Dx) = -1 (zero, periodic) / +1 (neumann) -- every size, state, delta, prior *)
+Theorem C10_approx_shape_offset_1d :
+  forall (lnG : R -> R) (scale_fun : R -> R) (delta : R) (bc : bc_type) (x : Rvec) (alpha beta : R),
+    (forall s, 0 < s -> scale_fun s = 1 / s)%R -> (0 < length x)%nat ->
+    let D := Q2Rm (lmrf_diff_op bc (length x)) in
+    let Dx := Rmatvec D x in
+    proportional_on_pos (post_logd lnG (fun s => lmrf_like_logpdf (length Dx) (approx_penalty delta Dx) (scale_fun s)) alpha beta)
+       (gamma_logpdf lnG (INR (length Dx) + alpha) (approx_rate_R delta D x beta))
+    /\ approx_shape_R (length x) alpha = ((INR (length Dx) + alpha) + match bc with BNeumann => 1 | _ => -1 end)%R.
+Proof. exact approx_shape_offset_1d. Qed.
+Print Assumptions C10_approx_shape_offset_1d.
+
+(* against LMRF.logpdf itself: never exact on a 1-D field (no boundary condition gives a square operator) *)
+Theorem C10_approx_never_exact_1d :
+  forall (lnG : R -> R) (scale_fun : R -> R) (delta : R) (bc : bc_type) (x : Rvec) (alpha beta : R),
+    (forall s, 0 < s -> scale_fun s = 1 / s)%R -> (0 < length x)%nat ->
+    ~ proportional_on_pos (post_logd lnG (lik_lmrf scale_fun (Q2Rm (lmrf_diff_op bc (length x))) x) alpha beta)
+        (gamma_logpdf lnG (approx_shape_R (length x) alpha) (approx_rate_R delta (Q2Rm (lmrf_diff_op bc (length x))) x beta)).
+Proof. exact approx_never_exact_1d. Qed.
+Print Assumptions C10_approx_never_exact_1d.
+
+Theorem C10_lmrf_operator_shape :
+  forall (bc : bc_type) (n : nat),
+    length (lmrf_diff_op bc n) = lmrf_rows bc n /\ wf_mat n (lmrf_diff_op bc n) /\ ((0 < n)%nat -> lmrf_rows bc n <> n).
+Proof. exact (fun bc n => conj (lmrf_diff_op_rows bc n) (conj (lmrf_diff_op_wf bc n) (lmrf_rows_ne bc n))). Qed.
+Print Assumptions C10_lmrf_operator_shape.
+
+(* 2-D fields (N x N, Image2D): operator vstack([kron(I, D), kron(D, I)]).  Against LMRF.logpdf the draw is exact iff the grid is the
+   2 x 2 neumann one AND D x = 0; the shape misses N^2 - 2 N rows factors (about half of them) *)
+Theorem C10_approx_exact_2d_iff :
+  forall (lnG : R -> R) (scale_fun : R -> R) (delta : R) (bc : bc_type) (N : nat) (x : Rvec) (alpha beta : R),
+    (0 < delta)%R -> (forall s, 0 < s -> scale_fun s = 1 / s)%R -> (0 < N)%nat -> length x = (N * N)%nat ->
+    let D := Q2Rm (lmrf_diff_op_2d bc N) in
+    (proportional_on_pos (post_logd lnG (lik_lmrf scale_fun D x) alpha beta)
+       (gamma_logpdf lnG (approx_shape_R (length x) alpha) (approx_rate_R delta D x beta))
+     <-> (bc = BNeumann /\ N = 2%nat) /\ Forall (fun t => t = 0%R) (Rmatvec D x)).
+Proof. exact approx_exact_2d_iff. Qed.
+Print Assumptions C10_approx_exact_2d_iff.
+
+Theorem C10_approx_shape_offset_2d :
+  forall (lnG : R -> R) (scale_fun : R -> R) (delta : R) (bc : bc_type) (N : nat) (x : Rvec) (alpha beta : R),
+    (forall s, 0 < s -> scale_fun s = 1 / s)%R -> length x = (N * N)%nat ->
+    let D := Q2Rm (lmrf_diff_op_2d bc N) in
+    let Dx := Rmatvec D x in
+    proportional_on_pos (post_logd lnG (fun s => lmrf_like_logpdf (length Dx) (approx_penalty delta Dx) (scale_fun s)) alpha beta)
+       (gamma_logpdf lnG (INR (length Dx) + alpha) (approx_rate_R delta D x beta))
+    /\ approx_shape_R (length x) alpha = ((INR (length Dx) + alpha) + (INR (N * N) - INR (2 * N * lmrf_rows bc N)))%R.
+Proof. exact approx_shape_offset_2d. Qed.
+Print Assumptions C10_approx_shape_offset_2d.
+
+Theorem C10_lmrf_operator_shape_2d :
+  forall (bc : bc_type) (N : nat),
+    length (lmrf_diff_op_2d bc N) = (2 * N * lmrf_rows bc N)%nat /\ wf_mat (N * N) (lmrf_diff_op_2d bc N)
+    /\ ((0 < N)%nat -> ((2 * N * lmrf_rows bc N = N * N)%nat <-> bc = BNeumann /\ N = 2%nat)).
+Proof. exact (fun bc N => conj (lmrf_diff_op_2d_rows bc N) (conj (lmrf_diff_op_2d_wf bc N) (lmrf_2d_square_iff bc N))). Qed.
+Print Assumptions C10_lmrf_operator_shape_2d.
+
+(* ------------------------------------------------------------------------------------------------- *)
+(* 17. affine dependences: the probe's tolerance admits targets outside the conjugate structure         *)
+(* ------------------------------------------------------------------------------------------------- *)
+
+(* Gaussian(mean = Ax, prec = a s + b) with a, b > 0 and at least one datum: NO Gamma(k, r) is proportional to the posterior
+   of s -- the conditional is not a Gamma at all *)
+Theorem C10_affine_dependence_never_gamma :
+  forall (lnG : R -> R) (prec_fun : R -> R) (a b : R) (Ax Bv : Rvec) (alpha beta k r : R),
+    (0 < a)%R -> (0 < b)%R -> (forall s, 0 < s -> prec_fun s = a * s + b)%R -> length Ax = length Bv -> (0 < length Bv)%nat ->
+    ~ proportional_on_pos (post_logd lnG (lik_gauss_prec prec_fun Ax Bv) alpha beta) (gamma_logpdf lnG k r).
+Proof. exact gauss_prec_affine_never_gamma. Qed.
+Print Assumptions C10_affine_dependence_never_gamma.
+
+(* FINDING, sharpened (known_findings.tsv: exp.Conjugate|probe:three-point|non-identity-accepted): no contrived polynomial is needed --
+   prec = lambda s: s + 2^-20 is accepted by the experimental sampler (it lies inside the probe's tolerance box; harness cell
+   validate/.../s+2^-20), and for every data vector, forward output and prior no Gamma whatsoever is its conditional *)
+Theorem C10_affine_accepted_refuted :
+  forall (lnG : R -> R) (Ax Bv : Rvec) (alpha beta k r : R), length Ax = length Bv -> (0 < length Bv)%nat ->
+    validate_exp (witness_target [affine_witness]) = Accept s_prec
+    /\ ~ proportional_on_pos (post_logd lnG (lik_gauss_prec (Rdeval affine_witness) Ax Bv) alpha beta) (gamma_logpdf lnG k r).
+Proof. exact affine_accepted_not_conjugate. Qed.
+Print Assumptions C10_affine_accepted_refuted.
+
+(* ------------------------------------------------------------------------------------------------- *)
+(* 18. from `proportional` to `the same distribution`; what a passing rate case exhibits                *)
+(* ------------------------------------------------------------------------------------------------- *)
+
+(* Int = the integral over s > 0, of which two laws are used (it sees the values on s > 0 only; it is homogeneous).  If the target's
+   density in s is proportional to the sampler's Gamma density (every exactness theorem above) and that Gamma density is normalised,
+   then the NORMALISED conditional density of the hyper-parameter equals the Gamma density at every s > 0 and every event has the same
+   probability under both.  (Still outside: that numpy.random.gamma has that density.) *)
+Theorem C10_integral_form :
+  forall (Int : (R -> R) -> R),
+    (forall f g : R -> R, (forall s, 0 < s -> f s = g s)%R -> Int f = Int g) ->
+    (forall (c : R) (f : R -> R), Int (fun s => c * f s)%R = (c * Int f)%R) ->
+    forall (logf logg : R -> R) (Z : R),
+      proportional_on_pos logf logg -> Int (fun s => exp (logg s)) = 1%R -> Int (fun s => exp (logf s)) = Z ->
+      (0 < Z)%R
+      /\ (forall s, 0 < s -> exp (logf s) / Z = exp (logg s))%R
+      /\ (forall ind : R -> R, Int (fun s => ind s * (exp (logf s) / Z))%R = Int (fun s => ind s * exp (logg s))%R).
+Proof. exact normalised_conditional_is_sampler_density. Qed.
+Print Assumptions C10_integral_form.
+
+(* a passing `check_rate` case (every shard): the observed rate is, within relative 1e-9, the conditional's rate v.Pv/2 + beta PLUS
+   reg ||b - Ax||^2 / 2 -- the right-hand side of C10_gmrf_model_rate_identity with the model's reg (0 or 2^-26) *)
+Theorem C10_rate_case_exhibits_excess :
+  forall (n : nat) (P : list (list Q)) (reg : Q) (L : list (list Q)) (Ax b : list Q) (beta obs_rate obs_scale : Q),
+    check_rate n P reg L Ax b beta obs_rate obs_scale = true ->
+    length P = n -> wf_mat n P -> length Ax = n -> length b = n ->
+    let v := Rvsub (Q2Rv b) (Q2Rv Ax) in
+    let target := ((Rdot v (Rmatvec (Q2Rm P) v) / 2 + Q2R beta) + Q2R reg * Rnormsq v / 2)%R in
+    (Rabs (Q2R obs_rate - target) <= Q2R tol9 * Rabs target)%R.
+Proof. exact check_rate_excess_sound. Qed.
+Print Assumptions C10_rate_case_exhibits_excess.
+
+Example C10_integral_laws_satisfiable :
+  let Int := fun f : R -> R => f 1%R in
+  (forall f g : R -> R, (forall s, 0 < s -> f s = g s)%R -> Int f = Int g)
+  /\ (forall (c : R) (f : R -> R), Int (fun s => c * f s)%R = (c * Int f)%R)
+  /\ Int (fun s => exp ((fun _ => 0%R) s)) = 1%R.
+Proof. exact integral_laws_satisfiable. Qed.
+
+(* non-vacuity of the round-5 hypotheses *)
+Example C10_nonvacuous_round5 :
+  (probe_identity [dmono (100001 # 100000) 1] = true /\ probe_reciprocal [dmono (1000000001 # 1000000000) (-1)] = PTrue
+   /\ probe_identity [dquad (1 # 1000000) (1000001 # 1000000) (- (1 # 100000000))] = true
+   /\ probe_identity [dperturb DVar (DConst 1000)] = true)
+  /\ (forall eps, (0 <= eps)%R -> chol_law_reg 2 (reg_wit_M eps) reg_wit_P eps)
+  /\ (check_direct_life [Some [5%Q]; Some [7%Q]; Some [9%Q]] [1%Q] 1 1 (ObsDone [[7%Q]; [9%Q]] [9%Q] [1%Q; 1%Q; 1%Q]) = true
+      /\ check_direct_life [None] [1%Q] 1 1 ObsRefused = true
+      /\ check_direct_life [Some [5%Q]; Some [7%Q]; None] [1%Q] 3 0 (ObsRaised [[7%Q]]) = true)
+  /\ (check_diffop BZero 2 [[1; 0]; [-1; 1]; [0; -1]]%Q = true
+      /\ check_diffop BPeriodic 3 [[1; 0; -1]; [-1; 1; 0]; [0; -1; 1]; [1; 0; -1]]%Q = true
+      /\ check_diffop BPeriodic 2 [[1; -1]; [-1; 1]; [1; -1]]%Q = true
+      /\ check_diffop BNeumann 3 [[-1; 1; 0]; [0; -1; 1]]%Q = true).
+Proof. exact (conj probe_classes_nonvacuous (conj reg_wit_law (conj direct_life_nonvacuous lmrf_op_values))). Qed.
 
 (* ------------------------------------------------------------------------------------------------- *)
 (* non-vacuity: the hypotheses of the exactness theorems are satisfiable                              *)
